@@ -99,6 +99,50 @@ func §gen() ITER[int] GEN[int]{
 	RETX<<§other(tr.V(4, 8))>>RETX
 }GEN
 `+StdEntry, "return-expr"),
+		Raw("fx-leading-guard-runs-at-first-advance-not-at-creation", `
+func §gen(n int) ITER[int] GEN[int]{
+	if tr.V(1, n) < 0 {
+		panic(tr.V(2, "negative"))
+	}
+	if n > 100 {
+		panic("huge")
+	}
+	for i := n; i > 0; i-- {
+		YIELD(i)
+	}
+	RETNIL
+}GEN
+func §E() {
+	drv.Run[int](func() drv.It[int] { it := §gen(2); return it })
+	drv.Run[int](func() drv.It[int] { it := §gen(-1); return it })
+}
+`, "leading-guard"),
+		Raw("fx-buffered-channel-not-drained-ahead", `
+func §gen(ch chan int) ITER[int] GEN[int]{
+	for v := range ch {
+		YIELD(v)
+	}
+	RETNIL
+}GEN
+func §E() {
+	ch := make(chan int, 4)
+	for i := 1; i <= 4; i++ {
+		ch <- i * 10
+	}
+	close(ch)
+	it := §gen(ch)
+	tr.V(1, len(ch))
+	for k := 0; k < 3; k++ {
+		tr.V(2, it.MoveNext())
+		tr.V(3, it.Current())
+		tr.V(4, len(ch))
+	}
+	// a second reader still finds what the abandoned generator has not consumed
+	v, ok := <-ch
+	tr.V(5, v)
+	tr.V(6, ok)
+}
+`, "range:chan"),
 		G("fx-switch-init-and-tag-evaluated-once", `
 for i := 0; i < 2; i++ {
 	switch x := tr.V(1, i); tr.V(2, x) {
